@@ -88,6 +88,11 @@ AtomOf(a) ==
     [] a = "c2"    -> Cls(<<97, 98>>, FALSE)
     [] a = "d2"    -> Cls(<<99, 100>>, FALSE)
     [] a = "e2"    -> Cls(<<101, 102>>, FALSE)
+    \* the classes that have a name of their own: \d , \w , [a-z]
+    [] a = "d10"   -> Cls(<<48, 57>>, FALSE)
+    [] a = "w63"   -> Cls(<<48, 57, 65, 90, 95, 95, 97, 122>>, FALSE)
+    [] a = "lower" -> Cls(<<97, 122>>, FALSE)
+    [] a = "sdash" -> Lit(<<115, 45>>, FALSE)
     [] a = "c4"    -> Cls(<<97, 100>>, FALSE)
     [] a = "c5"    -> Cls(<<97, 101>>, FALSE)
     [] a = "c10"   -> Cls(<<97, 106>>, FALSE)
